@@ -368,6 +368,16 @@ def job_docs(kind, arg):
             text = pre + line
             check_document(text, acc, 'noisy')
             last = text
+    elif kind == 'pairs':
+        shard, nshards, quick = arg
+        for key, f in G.pair_documents(shard, nshards):
+            if quick and (key[3] not in (1, 3) or key[2] not in ('none', 'args-with-placeholders')):
+                continue
+            text, exp, r = M.render(f)
+            if not M.roles_ok(r):
+                continue
+            check_document(text, acc, 'pairs')
+            last = text
     elif kind == 'structure':
         budget, shard, nshards = arg
         for f, trailer in G.structure(budget, shard, nshards):
@@ -395,6 +405,7 @@ def run(ctx):
     nb = len(G.base_documents())
     ctx.level('model base documents x 5 layouts', [job_docs.job('base', [b]) for b in range(nb)])
     ctx.level('noisy documents: witness prefix . line', [job_docs.job('noisy', (pi,)) for pi in range(len(DS.prefixes()))])
+    ctx.level('pairs of feature modules', [job_docs.job('pairs', (s, 16, ctx.quick)) for s in range(16)])
     n = ctx.pick(4, 6)
     ctx.level('structure documents N<=%d' % n, [job_docs.job('structure', (n, s, 16)) for s in range(16)])
 
